@@ -125,6 +125,17 @@ def extract(configs, repo=REPO, log=None):
             t0 = time.time()
             r = _run_cargo(cfg, tmp, target_dir, repo, extra_args=["--lib", "-p", "rsactor"])
             if r.returncode != 0 or not os.path.exists(os.path.join(tmp, "rsactor.json")):
+                # a build that was killed half-way (or two builds that met in the shared target directory) can leave a
+                # broken artifact behind: before blaming the tree, build once more in a fresh private target directory
+                private = os.path.join(CACHE, "target-retry%d" % os.getpid())
+                shutil.rmtree(private, ignore_errors=True)
+                try:
+                    r = _run_cargo(cfg, tmp, private, repo, extra_args=["--lib", "-p", "rsactor"])
+                finally:
+                    shutil.rmtree(private, ignore_errors=True)
+                if r.returncode == 0 and os.path.exists(os.path.join(tmp, "rsactor.json")):
+                    remove_target_if_idle(target_dir)      # the shared one is suspect: start it afresh
+            if r.returncode != 0 or not os.path.exists(os.path.join(tmp, "rsactor.json")):
                 sys.stderr.write(r.stdout[-4000:])
                 shutil.rmtree(tmp, ignore_errors=True)
                 raise SystemExit("extraction failed for feature set [%s] (does /repo build?)" % name)
@@ -155,7 +166,18 @@ def remove_target_if_idle(td):
                 fcntl.flock(fd, fcntl.LOCK_EX | fcntl.LOCK_NB)
             except OSError:
                 return False
-        shutil.rmtree(td, ignore_errors=True)
+        # everything but the lock file itself goes (a cargo that is waiting on this lock keeps waiting on the same inode)
+        for top in os.listdir(td) if os.path.isdir(td) else []:
+            pth = os.path.join(td, top)
+            if top == "debug" and os.path.isdir(pth):
+                for e in os.listdir(pth):
+                    if e != ".cargo-lock":
+                        q = os.path.join(pth, e)
+                        shutil.rmtree(q, ignore_errors=True) if os.path.isdir(q) and not os.path.islink(q) else os.unlink(q)
+            elif os.path.isdir(pth) and not os.path.islink(pth):
+                shutil.rmtree(pth, ignore_errors=True)
+            else:
+                os.unlink(pth)
         return True
     finally:
         if fd is not None:
